@@ -28,6 +28,7 @@ type LoopSpec struct {
 }
 
 type GhostAssign struct {
+	Lemma ast.Expr // "lemma name(args)": instantiate a proved lemma here instead of assigning
 	LHS  ast.Expr
 	RHS  ast.Expr
 	Text string
@@ -43,6 +44,7 @@ type SpecFunc struct {
 	File    string
 	Line    int
 	PkgPath string
+	Func    bool // emitted as an SMT function with a definitional axiom (usable as a quantifier trigger) instead of a macro
 }
 
 type SpecParam struct {
@@ -131,7 +133,7 @@ var clauseKeywords = map[string]bool{
 	"ghost": true, "property": true, "float": true, "overflow": true, "trusted": true, "pure": true, "nopanic": true,
 	"may_panic": true, "func": true, "spec": true, "lockinv": true, "guarded_by": true, "extern": true, "lemma": true,
 	"let": true, "captures": true, "hyp": true, "goal": true, "drop": true, "purepkg": true, "flag": true, "results": true,
-	"inline": true, "allocates": true, "havoc_heap": true,
+	"inline": true, "allocates": true, "havoc_heap": true, "package": true, "specfn": true,
 }
 
 func stripComment(s string) string {
@@ -401,7 +403,7 @@ func (cs *ContractSet) ParseFile(path, pkgPath string) error {
 				GhostAt: map[string][]GhostAssign{}, Flags: map[string]bool{}, Extern: ext}
 			cs.Funcs[key] = cur
 			cs.Order = append(cs.Order, cur)
-		case "spec":
+		case "spec", "specfn":
 			cur, curLemma, curLock = nil, nil, nil
 			// spec name(params) type = body
 			open := strings.Index(rest, "(")
@@ -419,7 +421,7 @@ func (cs *ContractSet) ParseFile(path, pkgPath string) error {
 			params := parseParams(rest[open+1:cl], cs, path, ll.line)
 			rt := strings.TrimSpace(rest[cl+1 : cl+eq])
 			body := strings.TrimSpace(rest[cl+eq+1:])
-			sf := &SpecFunc{Name: name, Params: params, File: path, Line: ll.line, PkgPath: pkgPath}
+			sf := &SpecFunc{Name: name, Params: params, File: path, Line: ll.line, PkgPath: pkgPath, Func: kw == "specfn"}
 			if rt != "" {
 				sf.Result, err = parseExprAt(rt, path, ll.line)
 				if err != nil {
@@ -527,6 +529,15 @@ func (cs *ContractSet) ParseFile(path, pkgPath string) error {
 			}
 			anchor := strings.TrimSpace(r[:i])
 			asg := strings.TrimSpace(r[i+1:])
+			if strings.HasPrefix(asg, "lemma ") {
+				le, err := parseExprAt(strings.TrimSpace(asg[6:]), path, ll.line)
+				if err != nil {
+					errf("%v", err)
+					continue
+				}
+				cur.GhostAt[anchor] = append(cur.GhostAt[anchor], GhostAssign{Lemma: le, Text: asg, File: path, Line: ll.line})
+				continue
+			}
 			ga, err := parseGhostAssign(asg, path, ll.line)
 			if err != nil {
 				errf("%v", err)
@@ -599,6 +610,9 @@ func (cs *ContractSet) ParseFile(path, pkgPath string) error {
 				if j := strings.IndexAny(body, " \t"); j >= 0 {
 					bk = body[:j]
 					brest = strings.TrimSpace(body[j+1:])
+				}
+				if strings.HasPrefix(body, "listiter(") {
+					bk, brest = "listiter", body
 				}
 				switch bk {
 				case "invariant":
